@@ -26,6 +26,22 @@ Theorem C11_inv_xrun : forall c ops,
 Proof. exact xrun_Inv. Qed.
 Print Assumptions C11_inv_xrun.
 
+Theorem C11_gone_xrun : forall c ops e reason,
+  cfg_ok c -> Forall xop_ok ops ->
+  let s := fst (xrun c srv_init ops) in
+  In e (live s) ->
+  gone e (sids_of_eio (mg s) e) (fst (xstep c s (Plain (EioClose e reason)))) /\
+  ((forall x, In x (live s) -> x = e) ->
+   fst (xstep c s (Plain (EioClose e reason))) = mkSrv mgr_init [] [] [] [] (fresh s)).
+Proof. exact C11_gone_xrun_lemma. Qed.
+Print Assumptions C11_gone_xrun.
+
+Theorem C11_final_xrun : forall c ops,
+  cfg_ok c -> Forall xop_ok ops ->
+  no_residue (dump_of (fst (xrun c srv_init ops))) = true /\ c11_final (dump_of (fst (xrun c srv_init ops))) = true.
+Proof. exact C11_final_xrun_lemma. Qed.
+Print Assumptions C11_final_xrun.
+
 Theorem C11_gone : forall c s e reason,
   cfg_ok c -> Inv s -> In e (live s) ->
   gone e (sids_of_eio (mg s) e) (fst (step c s (EioClose e reason))).
